@@ -518,5 +518,70 @@ def ofF (text : Bytes) : Option Rep :=
     else
       (rd ss 0 text.length).bind fun src => (empty.assign (.ext src)).map fun s => { s with len := text.length }
 
+/-! ### the in-place mutations of the line protocol, as one interpreter (what the driver runs on `cur`) -/
+
+/-- total encoding of a piece `[off, off+n)` of a string of length `len` -/
+def piece (len a b : Nat) : Nat × Nat :=
+  let off := a % (len + 1)
+  (off, b % (len - off + 1))
+
+inductive Mut where
+  /-- `s = String(b)` -/
+  | assign (b : Bytes)
+  /-- `s += String(b)` -/
+  | append (b : Bytes)
+  /-- `s += c` -/
+  | appendChar (c : UInt8)
+  /-- `s << x` (`int`) -/
+  | appendInt (x : Int)
+  /-- `s.append(s.data() + off, n)` with `(off, n) = piece len a b` -/
+  | appendSelf (a b : Nat)
+  /-- `s += s` -/
+  | plusSelf
+  /-- `s.assign(*s + off, n)` -/
+  | assignSelf (a b : Nat)
+  /-- `s = *s + off` -/
+  | assignTail (a : Nat)
+  /-- `s = s` -/
+  | selfEq
+  | trim
+  | clear
+  /-- `s.resize(a % (len+1))` -/
+  | shrink (a : Nat)
+  /-- `s.resize(len + n); memset(s.data() + len, c, n)` -/
+  | grow (n : Nat) (c : UInt8)
+  /-- `s.resize(n, false); memset(s.data(), c, n)` -/
+  | refill (n : Nat) (c : UInt8)
+  /-- `s.resize(n, true, false)` -/
+  | reserve (n : Nat)
+  /-- `s.data()[a % (len+1)] = 0; s.fix()` -/
+  | pokeFix (a : Nat)
+deriving Repr
+
+def mutate (r : Rep) : Mut → Option Rep
+  | .assign b => r.assign (.ext b)
+  | .append b => r.append (.ext b)
+  | .appendChar c => r.appendChar c
+  | .appendInt x => (ofInt x).bind fun v => r.append (.ext v.toList)
+  | .appendSelf a b => r.append (.self (piece r.len a b).1 (piece r.len a b).2)
+  | .plusSelf => r.append (.self 0 r.len)
+  | .assignSelf a b => r.assign (.self (piece r.len a b).1 (piece r.len a b).2)
+  | .assignTail a => r.assign (.self (a % (r.len + 1)) (r.len - a % (r.len + 1)))
+  | .selfEq => r.assign (.self 0 r.len)
+  | .trim => r.trim
+  | .clear => r.clear
+  | .shrink a => r.resize (a % (r.len + 1))
+  | .grow n c => (r.resize (r.len + n)).bind fun r1 =>
+      (wr r1.buf r.len (List.replicate n c)).map fun b => { r1 with buf := b }
+  | .refill n c => (r.resize n false).bind fun r1 =>
+      (wr r1.buf 0 (List.replicate n c)).map fun b => { r1 with buf := b }
+  | .reserve n => r.resize n true false
+  | .pokeFix a => (wr r.buf (a % (r.len + 1)) [0]).map fun b => { r with buf := b, len := (cstr b).length }
+
+/-- a whole history of mutations -/
+def run (r : Rep) : List Mut → Option Rep
+  | [] => some r
+  | m :: ms => (r.mutate m).bind fun r' => run r' ms
+
 end Rep
 end AslModel.Str
